@@ -355,11 +355,38 @@ class Interp(object):
                     return cls.name
         return None
 
+    def external_bases(self, cls):
+        """values of the base classes of cls (and of its bases in the package) that are not classes of the package"""
+        out = []
+        for c in cls.mro():
+            for b in c.node.bases:
+                if isinstance(b, ast.Name) and (b.id == 'object' or c.module.repo.resolve_class(c.module, b.id) is not None):
+                    continue
+                out.append(self.eval(b, Frame(c.module)))
+        return out
+
     def instantiate(self, cls, args, kwargs):
         if self.exception_name(cls) is not None and cls.lookup('__init__') is None:
             return ExcValue(ExcClass(cls.name), tuple(args))
+        ext = [b for b in self.external_bases(cls) if not isinstance(b, ExcClass)]
+        nt = None
+        if ext:
+            if len(ext) == 1 and isinstance(ext[0], type) and issubclass(ext[0], tuple) and hasattr(ext[0], '_fields') \
+                    and cls.lookup('__init__') is None and cls.lookup('__new__') is None:
+                nt = ext[0]           # class X(namedtuple(..)): a record with methods
+            else:
+                raise self.err('instances of %s, a class with the external base %r' % (cls.name, ext[0]))
         obj = Obj(cls)
         object.__setattr__(obj, 'interp', self)
+        if nt is not None:
+            try:
+                val = nt(*args, **kwargs)
+            except TypeError as exc:
+                raise InterpTypeError(str(exc))
+            object.__setattr__(obj, 'record', val)
+            for k, v in zip(nt._fields, val):
+                obj.attrs[k] = v
+            return obj
         r = cls.lookup('__init__')
         if r is not None:
             kind, node, owner = r
@@ -463,6 +490,14 @@ class Interp(object):
                 return self.classref(obj.cls)
             if attr == '__dict__':
                 return obj.attrs
+            rec = getattr(obj, 'record', None)
+            if rec is not None:
+                if attr == '_fields':
+                    return rec._fields
+                if attr == '_asdict':
+                    return lambda: dict(rec._asdict())
+                if attr == '_replace':
+                    return lambda **kw: self.instantiate(obj.cls, (), dict(rec._asdict(), **kw))
             if not self.stack:
                 # asked for by a rule, not by the analysed program: the rule's anchor is gone
                 raise AnalysisError('anchor vanished: attribute %s of a %s object' % (attr, obj.cls.name))
@@ -1003,6 +1038,8 @@ class Interp(object):
             raise self.err('unsupported augmented assignment')
 
     def iterate(self, v):
+        if isinstance(v, Obj) and getattr(v, 'record', None) is not None and not self.has_dunder(v, '__iter__'):
+            return iter(v.record)
         if isinstance(v, Obj):
             if self.has_dunder(v, '__iter__'):
                 return self.iterate(self.call_dunder(v, '__iter__'))
@@ -1198,7 +1235,10 @@ class Interp(object):
 
     def getitem(self, base, idx):
         if isinstance(base, Obj):
-            return self.call_dunder(base, '__getitem__', idx)
+            if getattr(base, 'record', None) is not None and not self.has_dunder(base, '__getitem__'):
+                base = base.record
+            else:
+                return self.call_dunder(base, '__getitem__', idx)
         if isinstance(base, (list, tuple, str, range)):
             if isinstance(idx, Arr) and idx.size == 1:
                 idx = idx.item()
@@ -1325,6 +1365,12 @@ class Interp(object):
             r = a in b
             return r if T is ast.In else not r
         sym = _CMP_SYM[T]
+        for o in (a, b):
+            if isinstance(o, Obj) and getattr(o, 'record', None) is not None and not self.has_dunder(o, '__eq__'):
+                # a record (namedtuple subclass) compares like the tuple of its fields
+                a2 = tuple(a.record) if (isinstance(a, Obj) and getattr(a, 'record', None) is not None) else a
+                b2 = tuple(b.record) if (isinstance(b, Obj) and getattr(b, 'record', None) is not None) else b
+                return self.compare(op, a2, b2)
         if isinstance(a, Obj) or isinstance(b, Obj):
             dn = _CMP_DUNDER[sym]
             if isinstance(a, Obj) and self.has_dunder(a, dn[0]):
@@ -1369,6 +1415,8 @@ class Interp(object):
         I = self
 
         def b_len(x):
+            if isinstance(x, Obj) and getattr(x, 'record', None) is not None and not I.has_dunder(x, '__len__'):
+                return len(x.record)
             if isinstance(x, Obj):
                 return I.call_dunder(x, '__len__')
             if isinstance(x, (Poly, Rat, Fr, int)):
@@ -1463,6 +1511,8 @@ class Interp(object):
                         return True
                 elif hasattr(c, 'isinstance_'):
                     if c.isinstance_(x):
+                        return True
+                    if getattr(c, '__name__', '') == 'tuple' and isinstance(x, Obj) and getattr(x, 'record', None) is not None:
                         return True
                 else:
                     raise I.err('isinstance with %r' % (c,))
